@@ -504,6 +504,28 @@ theorem kept_prefix_is_longest_that_fits (dw used : Nat) (gs : List G) :
     (fitCount dw used gs < gs.length → dw < used + gWidth (gs.take (fitCount dw used gs + 1))) :=
   ⟨fitCount_fits dw gs used, fitCount_maximal dw gs used⟩
 
+/-- **`cut_filler_exact`** (the grapheme loop of `truncate_str_impl`, one text run; every limit, fill character, cluster
+list of any widths). What stands in place of the first cluster `g` that does not fit, exactly (`fillerFor`): nothing
+without a fill character or for a cluster of at most one column; one fill character for a two-column cluster when a
+column is left; for a cluster wider than two columns — the fallback reached since fix d6cf9d0 — as many fill characters
+as columns are left. In every case the result stays within the limit, and with a fill character a cluster of two or
+more columns is filled up to the limit exactly. -/
+theorem cut_filler_exact (dw : Nat) (fill : Option Char) (gs : List G) (used : Nat) (kept : List G) (used' : Nat)
+    (h : truncText dw fill used gs = some (kept, used', true)) :
+    ∃ g, gs[fitCount dw used gs]? = some g ∧ dw < used' + g.w ∧
+      kept = gs.take (fitCount dw used gs) ++ fillerFor dw fill used' g ∧
+      (used' ≤ dw → used' + gWidth (fillerFor dw fill used' g) ≤ dw) ∧
+      (∀ ch, fill = some ch → used' ≤ dw → 2 ≤ g.w → used' + gWidth (fillerFor dw fill used' g) = dw) := by
+  obtain ⟨g, h1, h2, h3⟩ := truncText_filler dw fill gs used kept used' h
+  refine ⟨g, h1, h2, h3, fillerFor_fits dw fill used' g, ?_⟩
+  intro ch hch hu hw
+  subst hch
+  exact fillerFor_exact dw ch used' g hu hw h2
+
+example : fillerFor 4 (some ' ') 2 ⟨['a', 'b'], 3⟩ = [⟨[' '], 1⟩, ⟨[' '], 1⟩] ∧
+    fillerFor 4 (some ' ') 3 ⟨['日'], 2⟩ = [⟨[' '], 1⟩] ∧ fillerFor 4 (some ' ') 4 ⟨['a', 'b'], 3⟩ = [] ∧
+    fillerFor 4 none 2 ⟨['a', 'b'], 3⟩ = [] := by decide
+
 /-- **`ingested_line_whole_within_limit`**: no limit (`--max-line-length 0`), or a line not longer than the limit in
 bytes, or one that fits in the limit's columns: nothing is cut. -/
 theorem ingested_line_whole_within_limit {ic : ICfg} {r : RawLine}
